@@ -431,6 +431,16 @@ func c16Sign(w *core.W, j int) {
 		sets = append(sets, build(exp))
 		w.Count("wildcard_expansions", 1)
 	}
+	// the same RRset as a validator may hold it: every record with a TTL of its own, above and below the
+	// RRSIG's original TTL (only the original TTL is signed, so it still verifies)
+	{
+		cur := build(nil)
+		for i, rr := range cur {
+			rr.Header().Ttl = []uint32{301, 299, 86400, 0, 300, 4294967295}[(j+i)%6]
+		}
+		sets = append(sets, cur)
+		w.Count("verified_sets_with_current_ttls", 1)
+	}
 	for si, set := range sets {
 		snap := graph.Clone(set)
 		var verr error
